@@ -24,7 +24,9 @@ Fail(st, why) == [st EXCEPT !.err = why]
 
 ReadStep(st, ev) ==
   IF ~Unchanged(st, ev, {}) THEN Fail(st, "ReadChangedAnExistingSet")
-  ELSE IF ev.raised THEN Fail(st, "ReadRefusedValidDocument")
+  \* a read that raises must be one that raises in a pristine interpreter too, with the same
+  \* exception (the document is at fault, not the history); it creates no set
+  ELSE IF ev.raised THEN (IF ev.pristine = "raise:" \o ev.err THEN st ELSE Fail(st, "ReadRefusedValidDocument"))
   ELSE IF ev.dumps[ev.set] # ev.pristine THEN Fail(st, "ReadDependsOnHistoryOrHashSeed")
   ELSE [st EXCEPT !.dump = (ev.set :> ev.dumps[ev.set]) @@ st.dump]
 
